@@ -41,6 +41,8 @@ class CfgInterp:
         k = e["k"]
         if k in ("paren", "cast", "icast") and e.get("c"):
             return self.ev(e["c"][-1], env)
+        if k == "construct" and len(e.get("c", ())) == 1:
+            return self.ev(e["c"][0], env)          # copy / conversion of a single value
         if k == "bool":
             return {f.text(e).strip() == "true"}
         if k == "int":
